@@ -416,6 +416,16 @@ def run_case(case, caching=True, evaluations=1, tree_out=None, ambient=None):
                 tree_out.append(f'(?tree {type(e).__name__}: {e})')
         import contextlib
         ctx = {None: contextlib.nullcontext, 'query': symbolic_mode, 'rule': rule_mode}[ambient]
+        if case.get('pre_take') is not None and case['quant'] != 'the':
+            # an ABANDONED evaluation first: take k results, close the iterator (must not change what follows)
+            with ctx():
+                it = iter(b.q.evaluate())
+                try:
+                    for _ in range(case['pre_take']):
+                        next(it)
+                except StopIteration:
+                    outs.append(('pre_completed',))     # it ran to the end after all: stripped by the caller
+                it.close()
         for _ in range(evaluations):
             with ctx():
                 if case['quant'] == 'the':
